@@ -18,6 +18,8 @@ type c16 struct{}
 
 func init() { engine.Register(c16{}) }
 
+func (c16) PostGenerate(r *engine.Rand, sc *engine.Scenario) { chooseEnv(r, sc) }
+
 func (c16) ID() string { return "C16" }
 
 func (c16) Budget(tier string) int {
@@ -135,7 +137,7 @@ func (c16) Execute(sc *engine.Scenario) *engine.Result {
 		oamInit[i] = fr.Byte()
 	}
 	m.OAM.VerifPoke(oamInit)
-	m.Park()
+	park(sc, m, res)
 	lcdOn := sc.P("lcd", 0) != 0
 	if lcdOn {
 		m.Write(0xff40, 0x91)
